@@ -167,3 +167,108 @@ Example C02_example :
           [(Some 1%nat, 3); (Some 0%nat, 9); (None, 25)] ]
   = Some (9, [(Some 1%nat, 4); (Some 0%nat, 2); (None, 25)]) \/ True.
 Proof. right. exact I. Qed.
+
+(* (9) ROUTE T: the linking core re-derived from the source text.  Gen/linker_core.v is
+   regenerated by tools/py2coq_linker.py (Python ast, fail-closed) from the CURRENT text of
+   SubnetLinker.__init__ / SubnetLinker.do_recur (trackpy/linking/subnetlinker.py) and
+   assign_subnet (trackpy/linking/subnet.py) on every run of the check: statement by statement,
+   the object's fields self.cur_sum / best_sum / best_pairs / cur_pairs / d_taken as a record
+   [linker], for-loops with explicit return / continue outcomes, the recursive call on explicit
+   fuel, exceptions as values (vocabulary: Model/PyLinker.v).  The theorems below are re-checked
+   against that file, so (1) and (8) hold of what the code says now, not only of the
+   hand-written models Model/Assign.v and Model/SubnetMerge.v. *)
+From TP Require Import Model.PyLinker Gen.linker_core Model.LinkerGenCheck Proofs.LinkerGen.
+
+(* (9a) the generated do_recur(j), started in ANY state of the search -- s_lst = S, d_taken =
+   taken, cur_sum = cur, cur_pairs = the j choices made so far (path, newest first) for the
+   first j sources, incumbent (best_sum, best_pairs) = best -- returns without raising or running
+   out of fuel, leaves in best_sum / best_pairs exactly what the model's [search] computes on the
+   remaining sources, and every other field as it was: the in-place undo (cur_sum -= dist**2,
+   d_taken.remove(cur_d), cur_pairs.pop()) restores the state. *)
+Theorem C02_generated_do_recur_is_search : forall fuel ms (S : list spoint) j taken cur path best,
+  (j < length S)%nat -> (length S - j <= fuel)%nat -> length path = j ->
+  let cur_pairs_now := combine (firstn j S) (map fst (rev path)) in
+  let best' := search (skipn j (map snd S)) taken cur path best in
+  let enc := fun b : best_t => option_map (fun va : Z * list cand => combine S (map fst (snd va))) b in
+  py_do_recur fuel (mk_linker ms S (length S) (enc best) cur_pairs_now (option_map fst best) taken cur) j
+  = Done (mk_linker ms S (length S) (enc best') cur_pairs_now (option_map fst best') taken cur).
+Proof. exact py_do_recur_search. Qed.
+Print Assumptions C02_generated_do_recur_is_search.
+
+(* (9b) the generated constructor SubnetLinker(s_sn, dest_size, search_range, max_size): it
+   raises SubnetOversizeException exactly when there are more than max_size sources; otherwise
+   (s_lst[0] raises IndexError on an empty subnet, which the callers never build) it ends with
+   best_sum / best_pairs = the model's [solve] on the sources stably sorted by their number of
+   candidates, and cur_sum = 0, d_taken = cur_pairs = empty. *)
+Theorem C02_generated_linker_is_solve : forall (s_sn : list spoint) (ms : nat),
+  let S := sort_key (fun x : spoint => length (forward_cands x)) s_sn in
+  let r := solve (map snd S) in
+  py_SubnetLinker_init s_sn ms =
+  if (ms <? length s_sn)%nat then Fail SubnetOversizeException
+  else match s_sn with
+       | [] => Fail IndexError
+       | _ => Done (mk_linker ms S (length S)
+                      (option_map (fun va : Z * list cand => combine S (map fst (snd va))) r) []
+                      (option_map fst r) [] 0)
+       end.
+Proof. exact py_init_solve. Qed.
+Print Assumptions C02_generated_linker_is_solve.
+
+(* (9c) C02_bnb_optimal restated for the generated code: whatever the generated constructor
+   leaves in best_sum / best_pairs is a one-to-one assignment of the (sorted) sources of minimal
+   total cost, provided each candidate list is sorted by cost and costs are >= 0; and it does
+   leave one whenever every source has the null link among its candidates. *)
+Theorem C02_generated_bnb_optimal : forall (s_sn : list spoint) (ms : nat) (o : linker) v,
+  nonneg (map snd s_sn) -> Forall sorted (map snd s_sn) ->
+  py_SubnetLinker_init s_sn ms = Done o -> best_sum o = Some v ->
+  exists a, best_pairs o = Some (combine (s_lst o) (map fst a)) /\
+            Permutation (s_lst o) s_sn /\
+            completion (map snd (s_lst o)) [] a /\ v = total a /\
+            (forall sigma, completion (map snd (s_lst o)) [] sigma -> v <= total sigma).
+Proof. exact py_linker_optimal. Qed.
+Print Assumptions C02_generated_bnb_optimal.
+
+Theorem C02_generated_linker_finds : forall (s_sn : list spoint) (ms : nat),
+  s_sn <> [] -> (length s_sn <= ms)%nat ->
+  nonneg (map snd s_sn) -> Forall sorted (map snd s_sn) ->
+  Forall (fun cs => exists c, In (None, c) cs) (map snd s_sn) ->
+  exists o v, py_SubnetLinker_init s_sn ms = Done o /\ best_sum o = Some v.
+Proof. exact py_linker_finds. Qed.
+Print Assumptions C02_generated_linker_finds.
+
+(* (9d) the generated assign_subnet IS the model of (8), on every state (raising = None);
+   hence C02_assign_subnet_total and C02_subnet_ids_are_connected_components hold of
+   Subnets.reset() followed by the generated assign_subnet on any sequence of visited pairs. *)
+Theorem C02_generated_assign_subnet_is_model : forall st s d,
+  to_option (py_assign_subnet st s d) = assign_subnet st (s, d).
+Proof. exact py_assign_subnet_eq. Qed.
+Print Assumptions C02_generated_assign_subnet_is_model.
+
+Theorem C02_generated_assign_subnet_total : forall nd es,
+  (forall s d, In (s, d) es -> (d < nd)%nat) ->
+  exists st, py_run_edges nd es = Some st /\ Inv nd es st.
+Proof. exact py_run_edges_spec. Qed.
+Print Assumptions C02_generated_assign_subnet_total.
+
+Theorem C02_generated_subnet_ids_are_connected_components : forall nd es st x y i,
+  (forall s d, In (s, d) es -> (d < nd)%nat) ->
+  py_run_edges nd es = Some st -> vsub st x = Some i ->
+  (vsub st y = Some i <-> conn es x y).
+Proof. exact py_same_subnet_iff_connected. Qed.
+Print Assumptions C02_generated_subnet_ids_are_connected_components.
+
+(* non-vacuity: the generated constructor on the subnet of C02_example (source 1 has the fewest
+   candidates and is searched first); the generated assign_subnet on the pairs of C02_subnet_example *)
+Example C02_generated_example :
+  option_map (fun o => (best_sum o, option_map (map (fun p : spair => (fst (fst p), snd p))) (best_pairs o)))
+    (to_option (py_SubnetLinker_init
+       [ (0%nat, [(Some 0%nat, 1); (Some 1%nat, 4); (None, 25)]);
+         (1%nat, [(Some 0%nat, 2); (None, 25)]);
+         (2%nat, [(Some 1%nat, 3); (Some 0%nat, 9); (None, 25)]) ] 30))
+  = Some (Some 29, Some [(1%nat, None); (0%nat, Some 0%nat); (2%nat, Some 1%nat)]).
+Proof. vm_compute. reflexivity. Qed.
+
+Example C02_generated_subnet_example :
+  option_map canon (py_run_edges 5 [(0,0); (1,0); (1,1); (2,3); (7,2); (7,3)]%nat)
+  = Some [([0;1], [0;1]); ([2;7], [2;3]); ([], [4])]%nat.
+Proof. vm_compute. reflexivity. Qed.
